@@ -18,13 +18,16 @@ def run():
     return finish(PROP, 'exploration', b.violations(), [], b.errors, cov,
                   ["grammars are well-formed: start symbol defined, every referenced symbol is a declared token or a "
                    "defined nonterminal, no alternative listed twice for a symbol (two identical alternatives make the "
-                   "constructor's factorization assert; not what C03 is about), every nonterminal reachable from the "
-                   "start symbol, names free of '__' and '$'",
+                   "constructor's factorization assert; not what C03 is about), names free of '__' and '$' "
+                   "(nonterminals that are not reachable from the start symbol are allowed and enumerated)",
                    "terminals are word tokens separated by blanks (one regex group per terminal)",
                    "termination is observed only as 'parse returned or raised within %d parse-loop events "
                    "(TElement/_StackElement creations and roll-backs, counted by in-memory wrappers) and %.0f s "
                    "wall'; no variant is proved, inputs are bounded to <= %d tokens"
                    % (driver.STEP_BUDGET, driver.WALL_BUDGET, driver.MAX_TOKENS),
+                   "parse is called as parse(text, do_cleanup=False) and, for the grammars with unreachable symbols, "
+                   "also as parse(text, do_cleanup=False, start_symbol_name=s) for every other nonterminal s of the "
+                   "grammar (documented argument of LLParser.parse); no other arguments are varied",
                    "an exception of parse() that is not an llparser.Error, and a constructor exception other than "
                    "GrammarIsRecursive on a non-recursive grammar, are reported as diagnostics only (C01/C02 territory)",
                    "bounded: <= 3 nonterminals, <= 2 alternatives, right-hand sides <= 3, 2 terminals, total size "
